@@ -50,6 +50,16 @@ func (st *State) exec(in ssa.Instruction) []*State {
 		if ip.Hooks != nil {
 			ip.Hooks.Deref(st, x, base)
 		}
+		// dereferencing a pointer the function did not create: it is non-nil from here on (a nil pointer
+		// would have panicked — the definite-nil case is reported through the Deref hook)
+		if base.K == KPtr && base.O != nil && base.Sym == "" && strings.HasPrefix(base.O.ID, "$") {
+			k := "nil:" + base.O.ID
+			if isNil, known := st.Preds[k]; known && isNil {
+				return nil // infeasible continuation: the dereference panics
+			} else if !known {
+				st.Preds[k] = false
+			}
+		}
 		n, _ := ssau.FieldName(x)
 		if base.K == KPtr && base.O != nil {
 			st.vals[x] = Val{K: KPtr, O: base.O, Sym: joinPath(base.Sym, n)}
@@ -336,6 +346,9 @@ func (st *State) wrapCheck(x *ssa.BinOp, f lin.Form) Val {
 		if st.Prove(f) && (hi >= lin.PosInf || st.Prove(lin.Const(hi).Sub(f))) {
 			return IntVal(f)
 		}
+		if st.ip.AssumeNoTruncation {
+			return IntVal(f)
+		}
 		return st.opaqueInt(x, lo, hi)
 	}
 	return IntVal(f)
@@ -436,6 +449,9 @@ func (st *State) convert(x *ssa.Convert) Val {
 		if st.Prove(f.AddC(-dlo)) && (dhi >= lin.PosInf || st.Prove(lin.Const(dhi).Sub(f))) {
 			return IntVal(f)
 		}
+		if ip.AssumeNoTruncation {
+			return IntVal(f)
+		}
 		return st.opaqueInt(x, dlo, dhi)
 	}
 	if dInt {
@@ -465,12 +481,18 @@ func (st *State) sliceLenCap(v Val, t types.Type) (ln, cp lin.Form, id string, o
 func (st *State) indexAddr(x *ssa.IndexAddr) Val {
 	ip := st.ip
 	base := st.eval(x.X)
+	et := x.Type().(*types.Pointer).Elem()
+	if st.loopIndex[x.Index] {
+		// element of the slice a summarised loop ranges over: one canonical element object
+		if _, _, id, ok := st.sliceLenCap(base, x.X.Type()); ok {
+			return Val{K: KPtr, O: &Obj{ID: strings.ReplaceAll(id, ".", "/") + "[*]", Type: et}}
+		}
+	}
 	idx := st.intOf(st.eval(x.Index), x.Index.Type(), "idx")
 	ln, _, id, ok := st.sliceLenCap(base, x.X.Type())
 	if ip.Hooks != nil {
 		ip.Hooks.Index(st, x, ln, idx, ok)
 	}
-	et := x.Type().(*types.Pointer).Elem()
 	if !ok {
 		return Val{K: KPtr, O: &Obj{ID: ip.fresh("?elem"), Type: et}}
 	}
@@ -567,6 +589,10 @@ func (st *State) call(x *ssa.Call) []*State {
 	// iterator methods
 	if f := cc.StaticCallee(); f != nil && f.Signature.Recv() != nil && isIterPtr(f.Signature.Recv().Type()) && len(args) > 0 && args[0].K == KPtr {
 		st.vals[x] = st.iterCall(x, f.Name(), args)
+		return []*State{st}
+	}
+	if v, ok := st.writerCall(x, name, args, resName); ok {
+		st.vals[x] = v
 		return []*State{st}
 	}
 	if name == load.AstikitPath+".NewBytesIterator" && len(args) == 1 {
@@ -815,8 +841,17 @@ func (st *State) applySummary(x *ssa.Call, f *ssa.Function, sum *Summary, args [
 		if oi < len(sum.Outcomes)-1 {
 			ns = st.clone()
 		}
-		if !ns.bindOutcome(x, f, o, paramVal, inst) {
+		ok, res := ns.bindOutcome(f, o, paramVal, inst)
+		if !ok {
 			continue // infeasible
+		}
+		switch len(res) {
+		case 0:
+			ns.vals[x] = Val{K: KTuple}
+		case 1:
+			ns.vals[x] = res[0]
+		default:
+			ns.vals[x] = Val{K: KTuple, Tup: res}
 		}
 		out = append(out, ns)
 	}
@@ -869,6 +904,24 @@ func (st *State) resolveObj(root string, hops []string, paramVal map[string]Val)
 
 func (st *State) instSym(s string, paramVal map[string]Val, inst string) lin.Form {
 	ip := st.ip
+	if fs := splitProduct(s); len(fs) > 1 {
+		// product symbol: instantiate the factors and multiply
+		res := lin.Const(1)
+		for _, fa := range fs {
+			res = ip.mulForms(res, st.instSym(fa, paramVal, inst))
+		}
+		return res
+	}
+	if c, ok := ip.indConds[s]; ok {
+		c2 := st.instCond(c, paramVal, inst)
+		switch st.Decide(c2) {
+		case Yes:
+			return lin.Const(1)
+		case No:
+			return lin.Const(0)
+		}
+		return ip.indicator(c2)
+	}
 	wrap := ""
 	core := s
 	if (strings.HasPrefix(s, "len(") || strings.HasPrefix(s, "cap(")) && strings.HasSuffix(s, ")") {
@@ -903,6 +956,8 @@ func (st *State) instSym(s string, paramVal map[string]Val, inst string) lin.For
 					return st.Cursor(o)
 				case suffix == "#len" && path == "":
 					return st.IterLen(o)
+				case suffix == "#bits" && path == "":
+					return st.Bits(o)
 				case path != "":
 					key := joinPath(o.ID, joinPath(pre, path))
 					if mv, ok := st.mem[key]; ok {
@@ -927,15 +982,66 @@ func (st *State) instSym(s string, paramVal map[string]Val, inst string) lin.For
 				}
 			}
 		}
-		ns := inst + s
-		ip.SetBounds(ns, ip.Lo(s), ip.Hi(s))
+		ns := st.instText(s, paramVal, inst)
+		if _, ok := ip.lo[ns]; !ok {
+			ip.SetBounds(ns, ip.Lo(s), ip.Hi(s))
+		}
 		return lin.Sym(ns)
 	}
-	ns := inst + s
+	ns := st.instText(s, paramVal, inst)
 	if _, ok := ip.lo[ns]; !ok {
 		ip.SetBounds(ns, ip.Lo(s), ip.Hi(s))
 	}
 	return lin.Sym(ns)
+}
+
+// instText renames a composite symbol name (Σ{…}, indicator, product, len(…) of a nested cell …) for use in
+// the caller: every parameter token "$name" is replaced by the caller's name for the argument (object id,
+// slice id); names that mention no parameter get the instance prefix.
+func (st *State) instText(s string, paramVal map[string]Val, inst string) string {
+	if !strings.Contains(s, "$") {
+		return inst + s
+	}
+	var sb strings.Builder
+	unresolved := false
+	for i := 0; i < len(s); {
+		if s[i] != '$' {
+			sb.WriteByte(s[i])
+			i++
+			continue
+		}
+		j := i + 1
+		for j < len(s) && (s[j] == '_' || s[j] >= '0' && s[j] <= '9' || s[j] >= 'a' && s[j] <= 'z' || s[j] >= 'A' && s[j] <= 'Z') {
+			j++
+		}
+		tok := s[i:j]
+		elem := strings.HasPrefix(s[j:], "[*]")
+		av, ok := paramVal[tok]
+		switch {
+		case ok && av.K == KPtr && av.O != nil:
+			name := av.O.ID
+			if av.Sym != "" {
+				name = joinPath(name, av.Sym)
+			}
+			sb.WriteString(name)
+		case ok && av.K == KSlice:
+			if elem {
+				sb.WriteString(strings.ReplaceAll(av.S.ID, ".", "/"))
+			} else {
+				sb.WriteString(av.S.ID)
+			}
+		case ok && av.K == KInt:
+			sb.WriteString("(" + av.F.String() + ")")
+		default:
+			unresolved = true
+			sb.WriteString(tok)
+		}
+		i = j
+	}
+	if unresolved {
+		return inst + sb.String()
+	}
+	return sb.String()
 }
 
 func (st *State) instVal(v Val, paramVal map[string]Val, inst string, objMap map[string]*Obj) Val {
@@ -1024,6 +1130,12 @@ func (st *State) instCond(c *Cond, paramVal map[string]Val, inst string) *Cond {
 	case CGE, CEQ:
 		return &Cond{Op: c.Op, F: st.instForm(c.F, paramVal, inst)}
 	case CPred:
+		if strings.HasPrefix(c.Key, "$") || strings.HasPrefix(c.Key, "nil:$") {
+			if pc := st.paramCond(c.Key, paramVal); pc != nil {
+				return pc
+			}
+			return &Cond{Op: CPred, Key: st.instText(c.Key, paramVal, inst)}
+		}
 		return &Cond{Op: CPred, Key: st.instKey(c.Key, paramVal, inst)}
 	case CNot:
 		return &Cond{Op: CNot, X: st.instCond(c.X, paramVal, inst)}
@@ -1042,27 +1154,27 @@ func (st *State) instKey(k string, paramVal map[string]Val, inst string) string 
 }
 
 // bindOutcome applies one callee outcome to the caller state; false if infeasible.
-func (st *State) bindOutcome(x *ssa.Call, f *ssa.Function, o *Outcome, paramVal map[string]Val, inst string) bool {
+func (st *State) bindOutcome(f *ssa.Function, o *Outcome, paramVal map[string]Val, inst string) (bool, []Val) {
 	objMap := map[string]*Obj{}
 	// facts
 	for _, ft := range o.Facts {
 		g := st.instForm(ft.F, paramVal, inst)
 		if st.Prove(g.Scale(-1).AddC(-1)) {
-			return false // contradicts what the caller knows
+			return false, nil // contradicts what the caller knows
 		}
 		st.Facts = append(st.Facts, lin.Fact{F: g})
 	}
 	for _, ne := range o.NE {
 		g := st.instForm(ne, paramVal, inst)
 		if st.Decide(&Cond{Op: CEQ, F: g}) == Yes {
-			return false
+			return false, nil
 		}
 		st.NE = append(st.NE, g)
 	}
 	for k, v := range o.Preds {
 		ck := st.instPure(k, paramVal, inst)
 		if old, ok := st.Preds[ck]; ok && old != v {
-			return false
+			return false, nil
 		}
 		st.Preds[ck] = v
 	}
@@ -1074,11 +1186,11 @@ func (st *State) bindOutcome(x *ssa.Call, f *ssa.Function, o *Outcome, paramVal 
 			switch st.Decide(c) {
 			case Yes:
 				if !tv {
-					return false
+					return false, nil
 				}
 			case No:
 				if tv {
-					return false
+					return false, nil
 				}
 			default:
 				st.Assume(c, tv)
@@ -1122,15 +1234,10 @@ func (st *State) bindOutcome(x *ssa.Call, f *ssa.Function, o *Outcome, paramVal 
 	for _, r := range o.Results {
 		res = append(res, st.instVal(r, paramVal, inst, objMap))
 	}
-	switch len(res) {
-	case 0:
-		st.vals[x] = Val{K: KTuple}
-	case 1:
-		st.vals[x] = res[0]
-	default:
-		st.vals[x] = Val{K: KTuple, Tup: res}
+	for _, e := range o.Events {
+		st.Events = append(st.Events, st.instEvent(e, paramVal, inst, objMap))
 	}
-	return true
+	return true, res
 }
 
 // instPure renames the forms embedded in a pure-predicate key "pure:fn(⟦form⟧,…)".
@@ -1195,6 +1302,57 @@ func (ip *Interp) pureKeyForms(k string) []lin.Form {
 // paramCond resolves a parameter-rooted boolean cell name ("$h.HasAdaptationField", "$af/X.flag") to the
 // caller's condition, or nil when the caller has no boolean value for it.
 func (st *State) paramCond(key string, paramVal map[string]Val) *Cond {
+	if strings.HasPrefix(key, "nil:") {
+		root, hops, path, _ := splitParamName(key[4:])
+		av, ok := paramVal[root]
+		if !ok {
+			return nil
+		}
+		if len(hops) == 0 && path == "" {
+			switch av.K {
+			case KNilPtr:
+				return &Cond{Op: CConst, V: true}
+			case KPtr:
+				if av.O != nil && st.zero[av.O.ID] {
+					return &Cond{Op: CConst, V: false}
+				}
+				if av.O != nil {
+					return &Cond{Op: CPred, Key: "nil:" + joinPath(av.O.ID, av.Sym)}
+				}
+			case KSlice:
+				switch av.S.IsNil {
+				case Yes:
+					return &Cond{Op: CConst, V: true}
+				case No:
+					return &Cond{Op: CConst, V: false}
+				}
+				return &Cond{Op: CPred, Key: "nil:" + av.S.ID}
+			}
+			return nil
+		}
+		if o, pre, ok := st.resolveObj(root, hops, paramVal); ok {
+			k := joinPath(o.ID, joinPath(pre, path))
+			if mv, ok := st.mem[k]; ok {
+				switch mv.K {
+				case KNilPtr:
+					return &Cond{Op: CConst, V: true}
+				case KPtr:
+					if mv.O != nil && st.zero[mv.O.ID] {
+						return &Cond{Op: CConst, V: false}
+					}
+					if mv.O != nil {
+						return &Cond{Op: CPred, Key: "nil:" + joinPath(mv.O.ID, mv.Sym)}
+					}
+				}
+				return nil
+			}
+			if st.zero[o.ID] {
+				return &Cond{Op: CConst, V: true}
+			}
+			return &Cond{Op: CPred, Key: "nil:" + strings.ReplaceAll(k, ".", "/")}
+		}
+		return nil
+	}
 	root, hops, path, _ := splitParamName(key)
 	av, ok := paramVal[root]
 	if !ok {
@@ -1223,4 +1381,210 @@ func (st *State) paramCond(key string, paramVal map[string]Val) *Cond {
 		return &Cond{Op: CPred, Key: k}
 	}
 	return nil
+}
+
+// ---- bits writer modelling (astikit.BitsWriter / BitsWriterBatch summaries)
+
+func isWriterPtr(t types.Type) bool {
+	p, ok := t.(*types.Pointer)
+	return ok && ssau.IsNamed(p.Elem(), load.AstikitPath, "BitsWriter")
+}
+
+func isBatchPtr(t types.Type) bool {
+	p, ok := t.(*types.Pointer)
+	return ok && ssau.IsNamed(p.Elem(), load.AstikitPath, "BitsWriterBatch")
+}
+
+// Bits returns the number of bits emitted so far to the writer object on this path.
+func (st *State) Bits(w *Obj) lin.Form {
+	k := w.ID + ".#bits"
+	v, ok := st.mem[k]
+	if !ok || v.K != KInt {
+		s := w.ID + "#bits"
+		st.ip.SetBounds(s, 0, lin.PosInf)
+		v = IntVal(lin.Sym(s))
+		st.mem[k] = v
+	}
+	return v.F
+}
+
+// EmitHook is implemented by hooks interested in emissions.
+type EmitHook interface {
+	Emit(st *State, call ssa.CallInstruction, w *Obj, width lin.Form, widthKnown bool, val Val, operandType types.Type, method string)
+}
+
+func (st *State) writerCall(x *ssa.Call, name string, args []Val, resName string) (Val, bool) {
+	ip := st.ip
+	cc := &x.Call
+	switch name {
+	case load.AstikitPath + ".NewBitsWriterBatch":
+		if len(args) == 1 {
+			return Val{K: KStruct, Fields: map[string]Val{"w": args[0], "err": {K: KErr, ErrNil: Yes}}}, true
+		}
+	case load.AstikitPath + ".NewBitsWriter":
+		o := &Obj{ID: resName}
+		st.zero[resName] = true
+		st.mem[resName+".#bits"] = IntVal(lin.Const(0))
+		return Val{K: KPtr, O: o}, true
+	}
+	f := cc.StaticCallee()
+	if f == nil || f.Signature.Recv() == nil || len(args) == 0 {
+		return Val{}, false
+	}
+	rt := f.Signature.Recv().Type()
+	var w *Obj
+	isBatch := false
+	switch {
+	case isWriterPtr(rt):
+		if args[0].K == KPtr {
+			w = args[0].O
+		}
+	case isBatchPtr(rt):
+		isBatch = true
+		if args[0].K == KPtr && args[0].O != nil {
+			if wv, ok := st.mem[joinPath(args[0].O.ID, joinPath(args[0].Sym, "w"))]; ok && wv.K == KPtr {
+				w = wv.O
+			}
+		}
+	default:
+		return Val{}, false
+	}
+	method := f.Name()
+	errRes := func() Val {
+		if isBatch {
+			return Val{K: KTuple}
+		}
+		return Val{K: KErr, Sym: resName + ".err"}
+	}
+	switch method {
+	case "Err":
+		return Val{K: KErr, Sym: resName + ".batcherr"}, true
+	case "SetWriteCallback":
+		return Val{K: KTuple}, true
+	case "Write", "WriteN", "WriteBytesN":
+	default:
+		return Val{}, false
+	}
+	if w == nil {
+		w = &Obj{ID: ip.fresh("?writer")}
+	}
+	var width lin.Form
+	known := true
+	var opType types.Type
+	operand := args[1]
+	if mi, ok := cc.Args[1].(*ssa.MakeInterface); ok {
+		opType = mi.X.Type()
+	} else {
+		opType = cc.Args[1].Type()
+	}
+	switch method {
+	case "Write":
+		switch u := opType.Underlying().(type) {
+		case *types.Basic:
+			switch {
+			case u.Info()&types.IsBoolean != 0:
+				width = lin.Const(1)
+			case u.Kind() == types.Uint8:
+				width = lin.Const(8)
+			case u.Kind() == types.Uint16:
+				width = lin.Const(16)
+			case u.Kind() == types.Uint32:
+				width = lin.Const(32)
+			case u.Kind() == types.Uint64:
+				width = lin.Const(64)
+			case u.Kind() == types.String && operand.K == KSlice:
+				width = operand.S.Len
+			default:
+				known = false
+			}
+		case *types.Slice:
+			if b, ok := u.Elem().Underlying().(*types.Basic); ok && b.Kind() == types.Uint8 && operand.K == KSlice {
+				width = operand.S.Len.Scale(8)
+			} else {
+				known = false
+			}
+		default:
+			known = false
+		}
+	case "WriteN":
+		n := st.intOf(args[2], types.Typ[types.Int], "n")
+		width = n
+		b, ok := opType.Underlying().(*types.Basic)
+		if !ok || b.Info()&types.IsUnsigned == 0 || !n.IsConst() {
+			known = false
+		}
+	case "WriteBytesN":
+		n := st.intOf(args[2], types.Typ[types.Int], "n")
+		width = n.Scale(8)
+	}
+	if h, ok := ip.Hooks.(EmitHook); ok {
+		h.Emit(st, x, w, width, known, operand, opType, method)
+	}
+	if known {
+		st.mem[w.ID+".#bits"] = IntVal(st.Bits(w).Add(width))
+	} else {
+		st.mem[w.ID+".#bits"] = IntVal(lin.Sym(ip.fresh(w.ID + "#bits?")))
+	}
+	st.Events = append(st.Events, Event{Kind: "emit", Obj: w.ID, Width: width, Val: operand, Type: types.TypeString(opType, nil), Pos: x.Pos(), ID: resName})
+	return errRes(), true
+}
+
+func (st *State) instEvent(e Event, paramVal map[string]Val, inst string, objMap map[string]*Obj) Event {
+	n := e
+	n.Width = st.instForm(e.Width, paramVal, inst)
+	n.Off = st.instForm(e.Off, paramVal, inst)
+	n.Val = st.instVal(e.Val, paramVal, inst, objMap)
+	if e.Obj != "" {
+		n.Obj = st.instObj(&Obj{ID: e.Obj}, paramVal, inst, objMap).ID
+	}
+	n.ID = inst + e.ID
+	n.Body = nil
+	for _, b := range e.Body {
+		var nb []Event
+		for _, be := range b {
+			nb = append(nb, st.instEvent(be, paramVal, inst, objMap))
+		}
+		n.Body = append(n.Body, nb)
+	}
+	return n
+}
+
+// Harness: a synthetic state in which summaries of functions can be combined outside any function
+// body (used to relate a length calculator to the writer that emits what it counts).
+func (ip *Interp) Harness(fn *ssa.Function) *State {
+	var reqs []Requirement
+	return &State{ip: ip, Fn: fn, mem: map[string]Val{}, zero: map[string]bool{}, vals: map[ssa.Value]Val{}, Preds: map[string]bool{},
+		pending: map[string]pendingAdv{}, loops: map[*ssa.BasicBlock]map[string]lin.Form{}, marks: map[string]int{}, loopMk: map[*ssa.BasicBlock]map[string]int{},
+		phaseB: map[*ssa.BasicBlock]bool{}, inA: map[*ssa.BasicBlock]bool{}, acc: map[*ssa.BasicBlock]*loopAcc{}, reqs: &reqs}
+}
+
+// Symbolic creates a symbolic value of the given type in this state.
+func (st *State) Symbolic(t types.Type, name string) Val { return st.ip.symbolic(t, name, st) }
+
+// Applied is one feasible way of applying a function summary in a harness state.
+type Applied struct {
+	St      *State
+	Results []Val
+	Outcome *Outcome
+}
+
+// Apply applies the summary of f to the arguments; one result per feasible outcome.
+func (st *State) Apply(f *ssa.Function, args []Val, inst string) []Applied {
+	sum := st.ip.Summarize(f)
+	paramVal := map[string]Val{}
+	for i, p := range f.Params {
+		if i < len(args) {
+			paramVal["$"+p.Name()] = args[i]
+		}
+	}
+	var out []Applied
+	for oi := range sum.Outcomes {
+		ns := st.clone()
+		ok, res := ns.bindOutcome(f, &sum.Outcomes[oi], paramVal, inst)
+		if !ok {
+			continue
+		}
+		out = append(out, Applied{St: ns, Results: res, Outcome: &sum.Outcomes[oi]})
+	}
+	return out
 }
